@@ -7,7 +7,7 @@ from . import c06, c08
 
 UNITS = ['sdk/src/metrics/state/observable_registry.cc', 'sdk/src/metrics/async_instruments.cc',
          'sdk/src/metrics/aggregation/lastvalue_aggregation.cc', 'sdk/src/metrics/aggregation/sum_aggregation.cc',
-         'sdk/src/metrics/state/temporal_metric_storage.cc', 'sdk/src/metrics/meter.cc']
+         'sdk/src/metrics/state/temporal_metric_storage.cc', 'sdk/src/metrics/meter.cc', 'sdk/src/metrics/state/metric_collector.cc']
 DRIVERS = ['metrics_headers.cc']
 CANARIES = ['c17_canary.cc']
 
@@ -202,11 +202,115 @@ def rule_r4(ck, prog, rule='C17.R4'):
                    'AsyncMetricStorage::Record: %s' % why)
 
 
+def rule_r1_identity(ck, prog, rule='C17.R1'):
+    """RemoveCallback identifies a registration by everything AddCallback stored: every field of the record is compared"""
+    rec = prog.record('sdk::metrics::ObservableCallbackRecord')
+    fields = {fd['name'] for fd in rec['fields']}
+    f = prog.function('sdk::metrics::ObservableRegistry::RemoveCallback')
+    lams = [x for x in prog.funcs.values() if x.d.get('lambda') and x.d.get('parent') == f.key]
+    if not lams or not fields:
+        raise AnalysisBroken('ObservableRegistry::RemoveCallback: predicate / record fields not found')
+    lf = lams[0]
+    compared = set()
+    for n in lf.nodes:
+        c = comparison(lf, n['i'])
+        if c and c[0] == '==':
+            for side in (c[1], c[2]):
+                for j in lf.subtree(side):
+                    m = lf.nodes[j]
+                    if m['k'] == 'member' and m['name'] in fields:
+                        compared.add(m['name'])
+    rets = [n for n in lf.nodes if n['k'] == 'return']
+    has_or = any(lf.nodes[j]['k'] == 'binop' and lf.nodes[j]['op'] == '||' for r in rets for j in lf.subtree(r['e']))
+    ok = compared == fields and not has_or
+    ck.verdict(ok, rule, lf, 'remove-matches-whole-registration', rets[0] if rets else None,
+               'a registration is removed only when callback, state and instrument all match' if ok else
+               'RemoveCallback does not compare %s: removing one registration also removes the others that differ only there (same function registered with different state), they are never invoked again' % ', '.join(sorted(fields - compared) or ['all fields conjunctively']))
+
+
+def rule_r5(ck, prog, rule='C17.R5'):
+    """decision tables: (a) an explicit Sum view gives an instrument the same monotonicity as the default selection does;
+    (b) the collector never hands delta temporality to a synchronous gauge."""
+    from ..symb import explore_pinned, T, F
+    # ---- (a)
+    fd = prog.function('sdk::metrics::DefaultAggregation::GetDefaultAggregationType')
+    gd = Graph(prog, fd, inline=None, sync_lambdas=False)
+    sw = [b['t']['cnd'] for b in fd.blocks if b.get('t') and b['t']['k'] == 'SwitchStmt']
+    types = {}
+    for b in fd.blocks:
+        l = b.get('label')
+        if l and l.get('k') == 'case' and l.get('qn'):
+            types[l['qn'].rsplit('::', 1)[-1]] = l['v']
+    if len(sw) != 1 or len(types) < 6:
+        raise AnalysisBroken('GetDefaultAggregationType: switch over the instrument types not found')
+    mono_param = fd.params[1]['id']
+    default = {}
+    for name, v in types.items():
+        rets, _ = explore_pinned(gd, {}, {sw[0]: v})
+        outs = set()
+        for (ri, _val, env) in rets:
+            agg = strip_casts(fd, fd.nodes[ri]['e']).get('name') if ri is not None else None
+            outs.add((agg, dict(env).get(mono_param)))
+        default[name] = outs
+    fe = [x for x in prog.functions('sdk::metrics::DefaultAggregation::CreateAggregation') if len(x.params) == 3][0]
+    ge = Graph(prog, fe, inline=None, sync_lambdas=False)
+    swe = [b['t']['cnd'] for b in fe.blocks if b.get('t') and b['t']['k'] == 'SwitchStmt']
+    ksum = [b['label']['v'] for b in fe.blocks if b.get('label') and (b['label'].get('qn') or '').endswith('AggregationType::kSum')]
+    sums = [n for n in fe.nodes if n['k'] == 'construct' and strip_targs(n.get('c', '')).rsplit('::', 1)[-1] in ('LongSumAggregation', 'DoubleSumAggregation') and n.get('args')]
+    if len(swe) != 1 or not ksum or not sums:
+        raise AnalysisBroken('CreateAggregation(type, descriptor, config): kSum branch not found')
+    probes = [strip_casts(fe, n['args'][0])['i'] for n in sums]
+    for name, v in sorted(types.items()):
+        d = default[name]
+        if not any(a == 'kSum' for (a, m) in d):
+            continue
+        want = {m for (a, m) in d if a == 'kSum'}
+        pins = {}
+        for n in fe.nodes:
+            c = comparison(fe, n['i'])
+            if c and c[0] in ('==', '!='):
+                l, r = strip_casts(fe, c[1]), strip_casts(fe, c[2])
+                if r['k'] == 'member':
+                    l, r = r, l
+                if l['k'] == 'member' and l['name'] == 'type_' and r.get('sk') == 'enum' and 'InstrumentType' in (r.get('qn') or ''):
+                    pins[n['i']] = (r['v'] == v) if c[0] == '==' else (r['v'] != v)
+        _rets, seen = explore_pinned(ge, pins, {swe[0]: ksum[0]}, probes=probes)
+        got = set()
+        for pr in probes:
+            got |= seen.get(pr, set())
+        ok = got == want and len(got) == 1
+        ck.verdict(ok, rule, fe, 'explicit-sum-monotonicity:%s' % name, sums[0],
+                   'explicit Sum view on %s: is_monotonic=%s, as the default selection' % (name, sorted(got, key=str)) if ok else
+                   'an explicit Sum view on %s creates a %s sum, the default selection a %s one: a monotonic sum ignores negative values, so a total below zero is never reported' %
+                   (name, 'monotonic' if True in got else 'non-monotonic' if got == {False} else 'undetermined', 'monotonic' if want == {True} else 'non-monotonic'))
+    # ---- (b)
+    f = prog.function('sdk::metrics::MetricCollector::GetAggregationTemporality')
+    g = Graph(prog, f, inline=None, sync_lambdas=False)
+    pins = {}
+    for n in f.nodes:
+        c = comparison(f, n['i'])
+        if c and c[0] == '==':
+            r = strip_casts(f, c[2])
+            if r.get('sk') == 'enum' and (r.get('qn') or '').endswith('AggregationTemporality::kDelta'):
+                pins[n['i']] = T
+            if r.get('sk') == 'enum' and (r.get('qn') or '').endswith('InstrumentType::kGauge'):
+                pins[n['i']] = T
+    if len(pins) < 2:
+        ck.violation(rule, f, 'sync-gauge-never-delta', None, 'the collector no longer tests for (delta, synchronous gauge): the gauge storage takes the delta path and omits attribute sets that were not re-recorded')
+    else:
+        rets, _ = explore_pinned(g, pins)
+        vals = {strip_casts(f, f.nodes[ri]['e']).get('name') for (ri, _v, _e) in rets if ri is not None}
+        ok = vals == {'kCumulative'}
+        ck.verdict(ok, rule, f, 'sync-gauge-never-delta', None, 'for a synchronous gauge a delta preference is turned into cumulative on every path' if ok else
+                   'for a synchronous gauge with a delta-preferring reader the collector can return %s: the gauge storage takes the delta path, and an attribute set that was not re-recorded in the interval is omitted instead of reporting its last value' % sorted(vals, key=str))
+
+
 def run(ck, prog):
-    ck.doc('C17.R1', 'registry: list under its mutex; callbacks invoked under the lock from the registered list, once per record; destructor cleans up', 8)
+    ck.doc('C17.R1', 'registry: list under its mutex; callbacks invoked under the lock from the registered list, once per record; destructor cleans up; removal matches the whole registration', 9)
     ck.doc('C17.R2', 'Meter::Collect: Observe precedes every storage Collect', 1)
     ck.doc('C17.R3', 'LastValue Merge/Diff tie-break orientation; Aggregate sets valid/value/timestamp under the lock', 6)
     ck.doc('C17.R4', 'AsyncMetricStorage::Record updates cumulative and delta tables; delta = previous->Diff(current)', 2)
+    ck.doc('C17.R5', 'decision tables: explicit Sum view monotonicity = default selection; sync gauge never gets delta temporality', 5)
     ck.doc('C08.R7', '(shared rule) ObserverResultT::Observe stores last-write-wins', 4)
     ck.doc('C06.R3', '(shared rule, see C06) buildMetrics reader fan-out: fast path only for a single reader; no early return before the stash', 5)
     with ck.canary('C17.R1'):
@@ -215,6 +319,8 @@ def run(ck, prog):
     rule_r2(ck, prog)
     rule_r3(ck, prog)
     rule_r4(ck, prog)
+    rule_r1_identity(ck, prog)
+    rule_r5(ck, prog)
     c08.rule_r7(ck, prog, setters=('sdk::metrics::ObserverResultT::Observe',))
     c06.build_metrics_rules(ck, prog, rule4=None)
     return {}
